@@ -5,6 +5,7 @@
    Gen/ImportsSrc.v holds static facts re-extracted from restorer.go on every run. *)
 From Coq Require Import List String ZArith NArith Bool.
 Import ListNotations.
+From DV Require Import Proofs.ImportLoopsProofs.
 From DV Require Import Model.Decision Gen.DecisionSrc Proofs.PathOrderProofs.
 From DV Require Import Model.Tree Model.Imports Proofs.ImportsProofs Proofs.ImportsExact Gen.ImportsSrc.
 Local Open Scope string_scope.
@@ -159,6 +160,51 @@ Proof. exact path_order_source_is_model. Qed.
 Theorem C07_path_order_source_is_within_the_vocabulary : order_vocabulary_ok = true.
 Proof. vm_compute. reflexivity. Qed.
 
+
+(* Three loops of updateImports are translated on every run, one decision program per iteration
+   (Gen/DecisionSrc.v): the effective alias of every path -- first from the import blocks (an empty Alias-map
+   entry removes the source's alias, a blank import of a package in use is dropped), then from the Alias map --
+   and "anonymous imports are required".  Each body is proved to be the step function of the model's fold,
+   for every path, alias, Alias map, set of packages in use and map built so far; the model's
+   effective_alias IS the two folds. *)
+Theorem C07_effective_alias_loops_source_computes_the_model :
+  (forall p a manual inuse m,
+     eff_outcome p a m (run (eff_val p a manual inuse) effalias_found_src) = Some (found_step manual inuse m (p, a))) /\
+  (forall p a inuse m,
+     eff_outcome p a m (run (eff_val p a [] inuse) effalias_manual_src) = Some (manual_step inuse m (p, a))) /\
+  (forall found manual inuse,
+     Model.Imports.effective_alias found manual inuse
+     = fold_left (manual_step inuse) manual (fold_left (found_step manual inuse) found [])).
+Proof.
+  split; [exact effalias_found_source_is_model|].
+  split; [exact effalias_manual_source_is_model | exact effective_alias_is_the_two_loops].
+Qed.
+
+Theorem C07_anonymous_imports_required_source_computes_the_model :
+  (forall p a acc,
+    match run (eff_val p a [] []) anonymous_required_src with
+    | OReturn (DVal s) => String.eqb s S_SET_REQ = true /\ anon_step acc (p, a) = acc ++ [p]
+    | OFall => anon_step acc (p, a) = acc
+    | _ => False
+    end) /\
+  (forall eff acc, fold_left anon_step eff acc = acc ++ map fst (filter (fun pa => String.eqb (snd pa) "_") eff)).
+Proof. split; [exact anonymous_required_source_is_model | intros; apply anon_fold]. Qed.
+
+Theorem C07_import_loops_are_within_the_vocabulary : import_loops_vocabulary_ok = true.
+Proof. vm_compute. reflexivity. Qed.
+
+
+(* non-vacuity: the two translated loops on a concrete configuration -- the source aliases a/x as ax, imports
+   b/y blank and c/z plain; the Alias map removes the alias of a/x and names c/z cz; b/y is in use *)
+Example C07_effective_alias_loops_run :
+  let found := [("a/x", "ax"); ("b/y", "_"); ("c/z", "")] in
+  let manual := [("a/x", ""); ("c/z", "cz")] in
+  let inuse := ["b/y"; "c/z"] in
+  fold_left (manual_step inuse) manual (fold_left (found_step manual inuse) found []) = [("c/z", "cz")]
+  /\ Model.Imports.effective_alias found manual inuse = [("c/z", "cz")]
+  /\ eff_outcome "c/z" "cz" [] (run (eff_val "c/z" "cz" [] inuse) effalias_manual_src) = Some [("c/z", "cz")].
+Proof. vm_compute. repeat split; reflexivity. Qed.
+
 Print Assumptions C07_conflicts_resolved_in_sorted_order.
 Print Assumptions C07_conflict_loop_finds_a_free_name.
 Print Assumptions C07_import_names_pairwise_distinct.
@@ -171,3 +217,7 @@ Print Assumptions C07_effective_alias_beats_resolved_name.
 Print Assumptions C07_source_alias_table_is_a_map.
 Print Assumptions C07_path_order_source_computes_the_model.
 Print Assumptions C07_path_order_source_is_within_the_vocabulary.
+Print Assumptions C07_effective_alias_loops_source_computes_the_model.
+Print Assumptions C07_anonymous_imports_required_source_computes_the_model.
+Print Assumptions C07_import_loops_are_within_the_vocabulary.
+Print Assumptions C07_effective_alias_loops_run.
